@@ -1,6 +1,6 @@
 """C02: no comparison panics or depends on the build profile (R-PANIC); owned forms forward correctly (R-FWD)."""
 from rules.panic_clause import panic_clause
-from rules import table as TB, ordertable
+from rules import table as TB, ordertable, scangap
 from props import common
 
 
@@ -56,7 +56,7 @@ def run(ctx):
                        'predicates to a cell (scale order, difference fits u64, sign); the base must be the correctly oriented digit comparison (or the scale order '
                        'when the difference overflows) and the reversal parity must match the sign, so no magnitude ordering is returned without the sign correction; '
                        'checked_diff is checked against its contract cell by cell.  Decides "no comparison panics or depends on build profile" and the shape of the '
-                       'ordering table; does NOT decide the digit-level strategies inside compare_scaled_biguints / check_equality_bigdecimal_ref.')
+                       'ordering table; SCAN-GAP: in the digit loops no element pulled with next() is skipped while its iterator is consumed further.  Does NOT decide the arithmetic of the digit-level strategies inside compare_scaled_biguints / check_equality_bigdecimal_ref.')
     F = ctx.facts('default', 'dbg')
     ents = common.cmp_entries(F)
     rep.entries['comparison impls'] = [e.key for e in ents]
@@ -72,6 +72,8 @@ def run(ctx):
     rep.floor('order-table cells of <BigDecimalRef as Ord>::cmp', nt, 14)
     rep.floor('checked_diff contract cells', nc, 4)
     ne = ordertable.eq_table(rep, Fr)
+    ng = scangap.check(rep, Fr, Fr.reach(common.cmp_entries(Fr)))
+    rep.floor('digit loops advanced with next()', ng, 2)
     rep.floor('equality table cells', ne, 7)
     rep.trust('compare_scaled_biguints(a, b, k) decides a <=> b*10^k (its documented contract; the digit comparison itself is not decided)')
     rep.trust(common.TRUST_STD)
